@@ -239,6 +239,26 @@ fn cli_stats_with(x: &RefArray, stats: &[&str], fold_first: bool, extra: &[&str]
     o.stdout_str().trim().split(',').map(|t| t.parse::<f64>().map_err(|e| format!("'{t}': {e}"))).collect()
 }
 
+/// As `cli_stats`, with the number of decimals of the fold and of the statistics chosen (tiny
+/// spectra need more than 17 decimals to be printed at all).
+fn cli_stats_decimals(x: &RefArray, stats: &[&str], fold_first: bool, decimals: usize, scratch: &Scratch) -> Result<Vec<f64>, String> {
+    let mut input = text_of(x).into_bytes();
+    let d = decimals.to_string();
+    if fold_first {
+        let f = run_sfs(&["fold", "--fill", "zero", "--precision", &d], Stdin::Bytes(&input), scratch);
+        if !f.ok() {
+            return Err(format!("fold: {}", f.stderr_str()));
+        }
+        input = f.stdout;
+    }
+    let list = stats.join(",");
+    let o = run_sfs(&["stat", "-s", &list, "--precision", &d], Stdin::Bytes(&input), scratch);
+    if !o.ok() {
+        return Err(format!("{} {}", o.status_str(), o.stderr_str().trim()));
+    }
+    o.stdout_str().trim().split(',').map(|t| t.parse::<f64>().map_err(|e| format!("'{t}': {e}"))).collect()
+}
+
 fn printed_same(a: f64, b: f64) -> bool {
     if a.is_nan() || b.is_nan() {
         return a.is_nan() && b.is_nan();
@@ -318,6 +338,46 @@ fn eval_cli(x: &RefArray, scratch: &Scratch) -> (u64, Vec<Viol>) {
                 }
             }
             Err(e) => viols.push(("C14|cli|stat-failed".into(), format!("shape {shape:?} scaled by {c}: {e}"), case_j("scaling", "-", x, ""))),
+        }
+    }
+    // tiny spectra: c x for c = 1e-12 and 1e-20, every number printed with 45 decimals (so that
+    // printing loses nothing): scaling, and fold --fill zero | stat, relative to the values on x
+    for c in [1e-12, 1e-20] {
+        let y = RefArray { shape: shape.clone(), data: x.data.iter().map(|v| v * c).collect() };
+        n += all.len() as u64;
+        let rel = |expect: f64, got: f64| -> bool {
+            if expect.is_nan() || got.is_nan() {
+                return expect.is_nan() && got.is_nan();
+            }
+            expect == got || (expect - got).abs() <= 1e-9 * expect.abs() + 1e-40
+        };
+        match cli_stats_decimals(&y, &all, false, 45, scratch) {
+            Ok(scaled) => {
+                for ((st, a), b) in all.iter().zip(&base).zip(&scaled) {
+                    // (the values on x were printed with 12 decimals: linear statistics are compared
+                    // with what the library-independent relation gives from them, to 1e-9 relative
+                    // plus the printing error of the base value)
+                    let (expect, slack) = if SCALE_LINEAR.contains(st) { (a * c, 1e-12 * c) } else { (*a, 2e-12) };
+                    let checked = SCALE_LINEAR.contains(st) || SCALE_INVARIANT.contains(st);
+                    if checked && !(rel(expect, *b) || (expect - b).abs() <= slack) {
+                        viols.push((format!("C14|cli|scaling-tiny|{st}"), format!("shape {shape:?}: {st} = {a} on x but {b:e} on {c:e} x (`stat -s {} --precision 45`)", all.join(",")), case_j("scaling-tiny", st, x, &format!("{c:e}"))));
+                    }
+                }
+                if !fold_stats.is_empty() {
+                    n += fold_stats.len() as u64;
+                    let a = cli_stats_decimals(&y, &fold_stats, false, 45, scratch);
+                    let b = cli_stats_decimals(&y, &fold_stats, true, 45, scratch);
+                    match (&a, &b) {
+                        (Ok(p), Ok(q)) if p.iter().zip(q).all(|(u, v)| rel(*u, *v)) => {}
+                        _ => viols.push((
+                            format!("C14|cli|fold-invariance-tiny|{}", shape_class(shape)),
+                            format!("shape {shape:?} scaled by {c:e}: `sfs stat -s {} --precision 45` = {a:?} but behind `sfs fold --fill zero --precision 45` = {b:?}", fold_stats.join(",")),
+                            case_j("fold-invariance-tiny", &fold_stats.join(","), x, &format!("{c:e}")),
+                        )),
+                    }
+                }
+            }
+            Err(e) => viols.push(("C14|cli|stat-failed".into(), format!("shape {shape:?} scaled by {c:e}: {e}"), case_j("scaling-tiny", "-", x, ""))),
         }
     }
     viols.truncate(8);
